@@ -105,22 +105,95 @@ def c_post_send_hook(h):
             "raise_odd": "(Some (fun m => negb (Nat.odd (m_id m))))"}[a]
 
 
-def c_res_hook(h):
+def c_res_hook(h, real=None):
     if h is None or h.get("inst"):
         return "None"
     a = h["act"]
+    if a == "real":
+        # a middleware taskiq ships (the model knows hooks as arbitrary functions of the result): the function this hook
+        # WAS in this run, read off its logged calls (real_hook_fns); never called = any function
+        return real or "(Some (fun r => Some r))"
     return {"keep": "(Some (fun r => Some r))", "raise": "(Some (fun _ => None))",
             "raise_val_odd": "(Some (fun r => match r_val r with Some v => if Nat.odd v then None else Some r | None => Some r end))",
             "nores": "(Some (fun r => Some (mkres (r_err r) (r_val r) (Some 0) (r_lab r))))"}[a]
 
 
-def c_stack(mws, lt):
+def c_stack(mws, lt, real=None):
+    """real: {stack position: Coq function of the on_error hook of the shipped middleware there} (real_hook_fns)"""
     out = []
-    for s in mws:
+    for k, s in enumerate(mws):
         out.append("(mkmw %s %s %s %s %s %s)" % (
             c_msg_hook(s.get("pre_send"), lt), c_post_send_hook(s.get("post_send")), c_msg_hook(s.get("pre_execute"), lt),
-            c_res_hook(s.get("on_error")), c_res_hook(s.get("post_execute")), c_res_hook(s.get("post_save"))))
+            c_res_hook(s.get("on_error"), (real or {}).get(k)), c_res_hook(s.get("post_execute")),
+            c_res_hook(s.get("post_save"))))
     return C.clist(out)
+
+
+def real_positions(case):
+    return [k for k, s in enumerate(case.get("mws") or []) if s.get("real")] if case.get("type") == "recv" else []
+
+
+def real_norm(case, evs):
+    """one message's events as the pipeline's own: (1) `rekick` entries (a message the shipped retry middleware sent from
+    inside its on_error hook; the scripted broker's kick recorded it) are the hook's doing, not a step of the pipeline:
+    dropped; (2) that hook writes into the label dict of the message it is given (AsyncKicker(labels=message.labels)
+    .with_labels(_retries=n)): every later hook of this message is handed the same message object, now with the labels the
+    hook left (logged at its end) - they are printed as the labels the message had before (the model's result hooks do
+    not touch the message), and only if they are EXACTLY what the hook left."""
+    if not real_positions(case):
+        return evs
+    out, back = [], {}
+    for k, e in enumerate(evs):
+        if e[0] == "rekick":
+            continue
+        if e[0] == "hook" and back and ckey(e[4]) in back:
+            e = e[:4] + [back[ckey(e[4])]] + e[5:]
+        if e[0] == "hook.exit" and len(e) > 5 and e[3] == "real":
+            # the matching call: the last `hook` entry of this middleware before this end
+            for p in reversed(out):
+                if p[0] == "hook" and p[1:3] == e[1:3]:
+                    if ckey(p[4]) != ckey(e[5]):
+                        back[ckey(e[5])] = p[4]
+                    break
+        out.append(e)
+    return out
+
+
+def real_hook_fns(case, per, lt):
+    """{stack position: Coq `option (res -> option res)`} for the shipped middlewares of a receive case: the on_error hook
+    as the function of the result it was observed to be in this run - for each logged call (result labels, class of
+    result.error on entry) whether the hook left result.error alone or replaced it by the no-result signal.  Two calls with
+    the same argument and different outcomes, or any other change of the error: not a function of its argument - printed as
+    a hook the model cannot match."""
+    fns = {}
+    for k in real_positions(case):
+        obs, bad = {}, False
+        for w, evs in enumerate(per):
+            if in_d10_region(case, w, evs):
+                continue              # (close mode: the hook is aborted at its first suspension - abstracted by the model)
+            evs = [e for e in evs if e[0] != "rekick"]
+            for j, e in enumerate(evs):
+                if not (e[0] == "hook" and e[1] == "on_error" and e[2] == k):
+                    continue
+                x = evs[j + 1] if j + 1 < len(evs) else None
+                if x is None or x[0] != "hook.exit" or x[1:3] != e[1:3] or len(x) < 5:
+                    continue          # (no end logged: D10 region / abandoned coroutine)
+                key = (lt.idx(e[8]), e[7])
+                out = "nores" if (x[4] == E_NORESULT and e[7] != E_NORESULT) else "keep" if x[4] == e[7] else "other"
+                if out == "other" or obs.setdefault(key, out) != out:
+                    bad = True
+        if bad:
+            fns[k] = "(Some (fun _ : res => @None res))"
+            continue
+        fired = sorted(key for key, o in obs.items() if o == "nores" and key[1] is not None)
+        if not fired:
+            fns[k] = "(Some (fun r => Some r))"
+        else:
+            lst = C.clist(["(%s, %s)" % (C.cn(min(a, 4999)), C.cn(b)) for a, b in fired])
+            fns[k] = ("(Some (fun r => Some (if existsb (fun p : nat * nat => Nat.eqb (fst p) (r_lab r) && "
+                      "match r_exc r with Some x => Nat.eqb (snd p) x | None => false end) %s "
+                      "then mkres (r_err r) (r_val r) (Some 0) (r_lab r) else r)))" % lst)
+    return fns
 
 
 def c_bout(out):
@@ -176,7 +249,7 @@ def c_eff(ev, lt, cx=None):
         return "(FHookM %s %s %s)" % (HOOK_COQ[name], C.cn(i), m)
     if k == "base":      # a hook the class does not override was invoked: an effect the model never has
         return "(FHookM %s %s (mkmsg 4999 4999 None))" % (HOOK_COQ[ev[1]], C.cn(max(ev[2], 0) % 100))
-    if k in ("hook.exit", "ack.exit"):
+    if k in ("hook.exit", "ack.exit", "rekick"):
         return None
     simple = {"ack": "FAck", "exec.begin": "FExecBegin", "exec.end": "FExecEnd", "dep.open": "FDepOpen",
               "dep.saw": "FDepSaw", "dep.close": "FDepClose", "body.start": "FTaskStart", "save.exit": "FSaveOk",
@@ -260,6 +333,13 @@ def c_case(case, obs):
     per, glob, late, stray = split_log(case, obs["log"])
     g = []
     cxs = send_ctx(case) if case["type"] == "send" else None
+    real = None
+    if real_positions(case):
+        real = real_hook_fns(case, per, lt)
+        # per message: the labels the shipped retry middleware left in the message's label dict are printed as the labels
+        # the message had (real_norm); positions in the global order are kept
+        norm = [iter(real_norm(case, [e for e in evs if e[0] != "rekick"])) for evs in per]
+        glob = [(w, next(norm[w])) for w, ev in glob if ev[0] != "rekick"]
     for w, ev in abstract_d10(case, per, glob):
         t = c_eff(ev, lt, cxs[w] if cxs else None)
         if t is not None:
@@ -271,7 +351,7 @@ def c_case(case, obs):
         for M in case["msgs"]:
             det = M["style"] == "sync" and effective_tmo(case, M, lt) is not None
             cs.append("(%s, %s)" % (c_cfg(case, M, lt), C.cb(det)))
-        return "(let st := %s in (%s, %s))" % (c_stack(case["mws"], lt), C.clist(cs), C.clist(g))
+        return "(let st := %s in (%s, %s))" % (c_stack(case["mws"], lt, real), C.clist(cs), C.clist(g))
     cs, keys, sts = [], [], []
     for S, cx in zip(case["sends"], cxs):
         k = KICK_COQ[S.get("kick", "ok")]
@@ -363,7 +443,8 @@ def coq_show(ctx, case, obs):
     """replay helper: print the model's sequences for one case"""
     lt = LabelTable(case)
     if case["type"] == "recv":
-        body = "Definition st : list mw := %s.\n" % c_stack(case["mws"], lt)
+        real = real_hook_fns(case, split_log(case, obs["log"])[0], lt) if real_positions(case) else None
+        body = "Definition st : list mw := %s.\n" % c_stack(case["mws"], lt, real)
         for i, M in enumerate(case["msgs"]):
             body += "Eval vm_compute in (%d, callback %s).\n" % (i, c_cfg(case, M, lt))
     else:
@@ -501,6 +582,19 @@ def oracle_c02(case, per, late, fail):
                     break
 
 
+def real_substituted(evs):
+    """did an on_error hook of a middleware taskiq ships (the retry middleware, no_result_on_retry) replace the error of this
+    message's result by the no-result signal - read off the hook's own log entries (result.error when it was called / when
+    it ended); what the hook decides is the hook's business (C11), like the `nores` act of a recording hook"""
+    cur = {}
+    for e in evs:
+        if e[0] == "hook" and e[1] == "on_error":
+            cur[e[2]] = e[7]
+        elif e[0] == "hook.exit" and len(e) > 5 and e[3] == "real" and e[4] == E_NORESULT and cur.get(e[2]) != E_NORESULT:
+            return True
+    return False
+
+
 # ------------------------------------------------------------------------------------- oracle: C07
 def oracle_c07(case, per, late, fail):
     lt = LabelTable(case)
@@ -548,7 +642,8 @@ def oracle_c07(case, per, late, fail):
             continue
         # no-result: raised by the function, or substituted by an on_error / post_execute hook
         subst = any(h["act"] == "nores" for _, h in class_hooks(case, "post_execute")) or \
-            (any(w[0] for w in want) and any(h["act"] == "nores" for _, h in class_hooks(case, "on_error")))
+            (any(w[0] for w in want) and any(h["act"] == "nores" for _, h in class_hooks(case, "on_error"))) or \
+            real_substituted(evs)
         nores_possible = subst or any(w == (True, None, E_NORESULT) for w in want)
         nores_certain = subst or all(w == (True, None, E_NORESULT) for w in want)
         # "a failing result backend never prevents the message from completing processing": processing of an ackable
@@ -579,7 +674,7 @@ def oracle_c07(case, per, late, fail):
 def oracle_c10_recv(case, per, late, fail):
     lt = LabelTable(case)
     for i, M in enumerate(case["msgs"]):
-        evs = per[i]
+        evs = real_norm(case, per[i])
         sig = dict(msg=i)
         if any(e[0] == "base" for e in evs):
             fail("a hook that the middleware class does not override was invoked", sig, evs)
@@ -1088,6 +1183,7 @@ def gen_recv(r, focus="c02", allow_d10=True):
         settle(r, case, M, lt)
     del lt_dummy
     gen_exotic(r, case)
+    gen_real(case)
     gen_wire(case)
     gen_rereg(case)
     gen_life(case)
@@ -1733,6 +1829,200 @@ def gen_exotic(r, case):
         case["logging"] = True
 
 
+REAL_P = 0.15      # fraction of the receive cases whose stack holds a middleware taskiq SHIPS (SimpleRetryMiddleware) next to the recording ones
+# the retry-control labels as a message can carry them (table value = what the receiver runs the task with, after
+# parse_labels: a label typed through labels_types arrives with its type, an untyped one - older / non-Python producer, a
+# label declared as a string - as the JSON value that was sent; gen_wire then picks the wire form).  Only values every
+# released version of the middleware accepts: numbers, numeric strings, booleans.
+RETRY_ON = [True, True, True, "True", "True", "true", "TRUE", 1, False, "False", "false", 0, "1", "yes", ""]
+RETRY_MAX = [3, 3, 2, 1, 0, 5, 20, -1, "3", "3", "3", "2", "1", "0", "5", "20", " 4 ", "+2", {"f": (2.0).hex()}, {"f": (3.5).hex()}, True]
+RETRY_COUNT = [0, 1, 1, 2, 2, 4, "0", "1", "2", "3", {"f": (1.0).hex()}]
+
+
+def gen_real(case):
+    """a middleware taskiq SHIPS in the stack of a receive case (driver: make_real_mw).  Until now every middleware of the
+    pipeline family was a recording class of the harness: the code of taskiq/middlewares never ran under these properties.
+    The spec {"real": "retry", "opts": {...}, "on_error": {"act": "real", ...}} stands for an instance of (a subclass of)
+    SimpleRetryMiddleware constructed with `opts` (default_retry_count, default_retry_label, no_result_on_retry), at any
+    position of the stack; a third of them are application subclasses overriding further (recording) hooks.  Most valid
+    messages of such a case carry retry-control labels - retry_on_error, max_retries, _retries, each present or absent,
+    as bool / int / float / str ("True", "3", " 4 ") - appended to their label table entry, so the later stages (wire forms:
+    typed through labels_types, untyped, raw JSON of another client; pre_execute hooks replacing the labels) apply to
+    them.  What the hook does with a failing task - nothing, or a re-send through the real kicker into the scripted
+    broker's kick (recorded as `rekick`, takes case["rekick_susp"] ms) and possibly the no-result signal as the result's
+    error - is the hook's business: for the pipeline it is an on_error hook like any other, due once, in registration
+    order, awaited to completion, and whatever it does the message is acknowledged exactly once at its configured point
+    and completes.  PrometheusMiddleware, the other shipped one, needs the prometheus_client package (not installed).
+    Own generator, seeded with the case built so far: cases it leaves alone are what they were."""
+    rw = random.Random(zlib.crc32(("real" + json.dumps(case, sort_keys=True)).encode()))
+    if rw.random() >= REAL_P:
+        return
+    tbl, mws = case["labels"], case["mws"]
+    for _ in range(2 if rw.random() < .1 else 1):
+        spec = dict(real="retry",
+                    opts=dict(default_retry_count=rw.choice([3, 3, 3, 1, 2, 5, 0]), default_retry_label=rw.random() < .35,
+                              no_result_on_retry=rw.random() < .75),
+                    on_error={"async": True, "susp": g_susp(rw), "act": "real"})
+        if rw.random() < .3:
+            # an application's subclass of the shipped class that overrides further hooks
+            for name in ("pre_execute", "post_execute", "post_save"):
+                if rw.random() < .45:
+                    spec[name] = {"async": rw.random() < .5, "susp": g_susp(rw), "act": "keep"}
+        places = [k for k in range(len(mws) + 1) if k == len(mws) or not (mws[k].get("shape") or {}).get("twin")]
+        mws.insert(rw.choice(places), spec)
+    if rw.random() < .6:
+        case["rekick_susp"] = rw.choice([0, 1, 1, 2, 3])
+    keys = [json.dumps(x, sort_keys=True) for x in tbl]
+    for M in case["msgs"]:
+        if M["kind"] == "bad" or rw.random() >= .85:
+            continue
+        d = dict(tbl[M["labels"]])
+        if rw.random() < .75:
+            d["retry_on_error"] = rw.choice(RETRY_ON)
+        if rw.random() < .7:
+            d["max_retries"] = rw.choice(RETRY_MAX)
+        if rw.random() < .35:
+            d["_retries"] = rw.choice(RETRY_COUNT)
+        kd = json.dumps(d, sort_keys=True)
+        if kd not in keys:
+            tbl.append(d)
+            keys.append(kd)
+        M["labels"] = keys.index(kd)
+
+
+def retry_label_form(v):
+    return "absent" if v is None else "float" if isinstance(v, dict) else type(v).__name__
+
+
+def count_real(rep, case, per):
+    """shipped middlewares in the stack: options, position, the wire types of the retry-control labels of the messages that
+    reached the hook, and what the hook was observed to do"""
+    ks = real_positions(case)
+    if not ks:
+        rep.count("shipped-middleware:none(recording middlewares only)")
+        return
+    rep.count("shipped-middleware:case-with-SimpleRetryMiddleware")
+    for k in ks:
+        s = case["mws"][k]
+        rep.count("shipped-middleware:position:" + ("only" if len(case["mws"]) == 1 else "first" if k == 0 else
+                                                    "last" if k == len(case["mws"]) - 1 else "middle"))
+        rep.count("shipped-middleware:" + ("application-subclass-overriding-further-hooks" if len(own_hooks(s)) > 1
+                                           else "plain"))
+        for o, v in sorted(s["opts"].items()):
+            rep.count("shipped-middleware:retry-option:%s=%s" % (o, v))
+    at = case.get("ack_type") or "default(when_saved)"
+    for i, M in enumerate(case["msgs"]):
+        if M["kind"] != "ok":
+            continue
+        evs = per[i]
+        d = case["labels"][M["labels"]]
+        for e in evs:
+            if e[0] == "hook" and e[1] == "on_error" and e[2] in ks:
+                labs = {x[0]: x[1] for x in e[4]}
+                rep.count("shipped-middleware:on_error-called")
+                for key in ("retry_on_error", "max_retries", "_retries"):
+                    rep.count("shipped-middleware:label-arrives:%s:%s" % (key, labs.get(key, "absent")))
+                if labs.get("max_retries") == "str":
+                    rep.count("shipped-middleware:on_error-called-with-max_retries-as-str:%s,%s" % (
+                        at, "ackable" if M["ackable"] in ACKABLE else "not-ackable"))
+                if M.get("wire"):
+                    rep.count("shipped-middleware:on_error-called:message-in-wire-form:" + M["wire"]["via"] + "," + M["wire"]["lt"])
+            if e[0] == "rekick":
+                rep.count("shipped-middleware:retry:re-sent-through-the-real-kicker")
+                sent = {x[0]: x[2] for x in e[2]}
+                rep.count("shipped-middleware:retry:re-sent-message-_retries=%s" % sent.get("_retries"))
+            if e[0] == "hook.exit" and len(e) > 5 and e[3] == "real":
+                rep.count("shipped-middleware:on_error-ended:result.error=" + EXC_NAMES.get(e[4], "?"))
+        if real_substituted(evs):
+            rep.count("shipped-middleware:retry:replaced-the-error-by-the-no-result-signal")
+        for key in ("retry_on_error", "max_retries", "_retries"):
+            rep.count("shipped-middleware:label-sent:%s:%s" % (key, retry_label_form(d.get(key))))
+
+
+KICKX_P = 0.45     # fraction of the failing kicks / dumps (builtin exception classes) whose exception has one of the shapes below
+HANDLING_P = 0.08  # fraction of the sends made from inside an `except` block of the caller
+# keys of the driver's KICK_SHAPES: the exceptions socket / asyncio / ssl / json / client libraries raise from a publish
+KICK_SHAPES = [
+    "ConnectionRefusedError(errno,text)", "ConnectionRefusedError(errno,text)", "BrokenPipeError(errno,text)",
+    "ConnectionResetError(errno,text)", "OSError(errno,text,filename)", "OSError(errno)", "socket.gaierror(errno,text)",
+    "TimeoutError(errno,text)", "socket.timeout(text)", "ssl.SSLError(errno,text)", "asyncio.TimeoutError()", "RuntimeError()",
+    "asyncio.IncompleteReadError(bytes,int)", "asyncio.QueueFull()", "KeyError(int)", "KeyError(str)", "IndexError(text)",
+    "ValueError(str,str)", "ValueError(bytes)", "RuntimeError(tuple)", "RuntimeError(dict)", "RuntimeError(float)",
+    "Exception(None)", "Exception(str,None)", "ConnectionError(exception)", "ConnectionError(non-ascii text)",
+    "ConnectionError(lone surrogate)", "StopAsyncIteration()", "ExceptionGroup(text,[OSError,KeyError])",
+    "taskiq ResultGetError()", "client class with own __init__(host,port)", "client class carrying a code",
+    "RuntimeError raised from an OSError (has __cause__)", "MemoryError()",
+]
+DUMPS_SHAPES = ["UnicodeEncodeError(str,str,int,int,str)", "UnicodeEncodeError(str,str,int,int,str)",
+                "UnicodeDecodeError(str,bytes,int,int,str)", "TypeError(json text)", "RecursionError(text)", "KeyError(str)",
+                "KeyError(int)", "ValueError(str,str)", "ValueError(bytes)", "Exception(None)", "RuntimeError()", "MemoryError()"]
+KICK_NONSTR = {"ConnectionRefusedError(errno,text)", "BrokenPipeError(errno,text)", "ConnectionResetError(errno,text)",
+               "OSError(errno,text,filename)", "OSError(errno)", "socket.gaierror(errno,text)", "TimeoutError(errno,text)",
+               "ssl.SSLError(errno,text)", "asyncio.IncompleteReadError(bytes,int)", "KeyError(int)", "ValueError(bytes)",
+               "RuntimeError(tuple)", "RuntimeError(dict)", "RuntimeError(float)", "Exception(None)", "Exception(str,None)",
+               "ConnectionError(exception)", "ExceptionGroup(text,[OSError,KeyError])",
+               "client class with own __init__(host,port)", "client class carrying a code",
+               "UnicodeEncodeError(str,str,int,int,str)", "UnicodeDecodeError(str,bytes,int,int,str)"}
+
+
+def gen_kickx(case):
+    """WHAT a failing broker.kick() / formatter.dumps() raises (driver: kick_exc).  Until now: ConnectionError("cannot send") /
+    ValueError("cannot dump") / three taskiq error classes without arguments.  S["kick_x"] (sends whose kick is kick_fail /
+    dumps_fail): shape = one of the exception shapes real clients raise - the OSError family with (errno, text[, filename]),
+    KeyError(int), exceptions without args, with bytes / tuple / dict / None / exception-object args, non-ASCII text and lone
+    surrogates, UnicodeEncodeError from the serializer, an ExceptionGroup, a client library's class with its own __init__,
+    an exception that already has a __cause__ - or exc = [class, description] of gen_xspec (derived class with __eq__ /
+    __hash__ = None / __bool__ False / raising __str__ / __repr__, unpicklable / huge args, cause / context chains).  Always an
+    Exception: a BaseException from the broker is not a failed send in the sense of the statement (it propagates unwrapped).
+    S["handling"]: the send is made while the caller is handling another exception (a compensation send in an `except` block).
+    The statement for a failed send is what it was: post_send not called, the caller gets SendTaskError.
+    Own generator, seeded with the case built so far."""
+    rw = random.Random(zlib.crc32(("kickx" + json.dumps(case, sort_keys=True)).encode()))
+    for S in case["sends"]:
+        k = S.get("kick", "ok")
+        if k in ("kick_fail", "dumps_fail") and rw.random() < KICKX_P:
+            if rw.random() < .2:
+                b, x = gen_xspec(rw, rw.choice([1, 2, 3, 3]), False)
+                S["kick_x"] = {"exc": [b, x]}
+            else:
+                S["kick_x"] = {"shape": rw.choice(KICK_SHAPES if k == "kick_fail" or rw.random() < .3 else DUMPS_SHAPES)}
+        if rw.random() < HANDLING_P:
+            S["handling"] = {"shape": rw.choice(["KeyError(int)", "ConnectionRefusedError(errno,text)", "ValueError(str,str)",
+                                                 "RuntimeError()", "client class carrying a code"])}
+
+
+def count_kickx(rep, case, per):
+    for S, evs in zip(case["sends"], per):
+        k = S.get("kick", "ok")
+        if S.get("handling"):
+            rep.count("send-made-while-the-caller-handles-an-exception:" + ("kick-ok" if k == "ok" else "send-fails"))
+        if k not in ("kick_fail", "dumps_fail"):
+            continue
+        x = S.get("kick_x")
+        what = "kick" if k == "kick_fail" else "dumps"
+        reached = any(e[0] == ("kick" if k == "kick_fail" else "dumps") for e in evs)
+        if not x:
+            rep.count("%s-failure-raises:as-always(%s)" % (what, "ConnectionError(text)" if k == "kick_fail" else "ValueError(text)"))
+            continue
+        if x.get("shape"):
+            rep.count("%s-failure-raises:shape:%s" % (what, x["shape"]))
+            nonstr = x["shape"] in KICK_NONSTR
+        else:
+            rep.count("%s-failure-raises:odd-exception-object(%s)" % (what, EXC_NAMES[x["exc"][0]]))
+            d = x["exc"][1]
+            for key in ("cls", "eq", "hash", "truth", "str", "args", "cycle"):
+                if d.get(key):
+                    rep.count("%s-failure-raises:odd-exception-object:%s=%s" % (what, key, d[key]))
+            if d.get("chain"):
+                rep.count("%s-failure-raises:odd-exception-object:has-cause/context-chain" % what)
+            nonstr = d.get("args") in ("unpicklable", "unjsonable", "nested") or d.get("cls") in ("dataclass",)
+        if reached:
+            rep.count("failed-send:exception-args:" + ("contain-a-non-str" if nonstr else "all-str-or-empty"))
+            cr = [e for e in evs if e[0] == "crash"]
+            rep.count("failed-send:shaped-exception:caller-got:" + (cr[0][1] if cr else "no exception"))
+
+
+
 WALL_BASES = [0.0, 1.0, 1.7e9, 1.7e9, 1.7e9, 1758000000.25, 2147483647.0, 4294967296.0, -86400.0]
 WALL_BASES_HUGE = [1e12, 253402300800.0, float(2 ** 53), 1e18]
 
@@ -1799,6 +2089,7 @@ def gen_send(r):
                                                  "kick_fail_sub", "kick_fail_send"])))
     if r.random() < CHAIN_P:
         gen_chains(r, case)
+    gen_kickx(case)
     gen_life(case)
     return case
 
@@ -2134,6 +2425,7 @@ def explore(ctx, rep, pid, cases, label, oracles, nontrivial):
         if c["type"] == "recv":
             count_recv(rep, c, per, late)
             count_rereg(rep, c, per)
+            count_real(rep, c, per)
             for orc in oracles:
                 orc(c, per, late, f)
         else:
@@ -2143,6 +2435,7 @@ def explore(ctx, rep, pid, cases, label, oracles, nontrivial):
             for S in c["sends"]:
                 rep.count("kick:" + S.get("kick", "ok"))
             count_chains(rep, c)
+            count_kickx(rep, c, per)
             for evs in per:
                 rep.count("send-branch:" + ("sent" if any(e[0] == "sent" for e in evs) else
                                             "crash:" + [e for e in evs if e[0] == "crash"][0][1]))
